@@ -753,6 +753,19 @@ func (c *Ctx) panicSites(fd *ast.FuncDecl) []panicSite {
 				}
 				out = append(out, panicSite{fn, "must", f.Name() + "(" + arg + ")", x.Pos()})
 			}
+		case *ast.BinaryExpr:
+			// == / != between two interface values panics when both hold the same uncomparable dynamic type (a
+			// decoded JSON object is a map): safe only where both are known to hold pointers
+			if (x.Op == token.EQL || x.Op == token.NEQ) && !isNilIdent(c, x.X) && !isNilIdent(c, x.Y) {
+				tx, ty := c.typeOf(x.X), c.typeOf(x.Y)
+				if tx != nil && ty != nil {
+					ix, okx := tx.Underlying().(*types.Interface)
+					iy, oky := ty.Underlying().(*types.Interface)
+					if okx && oky && ix.Empty() && iy.Empty() && !c.bothKnownPointers(fd, x) {
+						out = append(out, panicSite{fn, "iface-compare", exprString(x), x.Pos()})
+					}
+				}
+			}
 		case *ast.TypeAssertExpr:
 			if x.Type != nil && !inTypeSwitch[x] && !commaOK[x] {
 				out = append(out, panicSite{fn, "type-assert", exprString(x), x.Pos()})
@@ -823,6 +836,10 @@ func (c *Ctx) panicSites(fd *ast.FuncDecl) []panicSite {
 func (c *Ctx) indexGuarded(fd *ast.FuncDecl, ix *ast.IndexExpr) bool {
 	tv, ok := c.Info.Types[ix.Index]
 	if !ok || tv.Value == nil {
+		// an array indexed under uint(i) < K (or 0 <= i && i < K) with K not above its length
+		if arr, isArr := c.typeOf(ix.X).Underlying().(*types.Array); isArr && c.indexBelow(fd, ix, ix.Index, int(arr.Len())) {
+			return true
+		}
 		// non-constant index: loop counters of a classic for over len(x)
 		return c.loopBounded(fd, ix)
 	}
@@ -904,6 +921,68 @@ func (c *Ctx) indexGuarded(fd *ast.FuncDecl, ix *ast.IndexExpr) bool {
 	return false
 }
 
+// lenLowerBound: the largest lower bound on len(<base>) that the conditions in force at node imply (-1: none).
+func (c *Ctx) lenLowerBound(fd *ast.FuncDecl, node ast.Node, baseExpr ast.Expr) int {
+	stripConv := func(e ast.Expr) string {
+		e = unparen(e)
+		if call, ok := e.(*ast.CallExpr); ok && c.isConversion(call) && len(call.Args) == 1 {
+			e = unparen(call.Args[0])
+		}
+		return exprString(e)
+	}
+	best := -1
+	base := stripConv(baseExpr)
+	for _, cl := range c.literalsAt(fd, node) {
+		be, ok := unparen(cl.e).(*ast.BinaryExpr)
+		if !ok {
+			continue
+		}
+		call, ok := unparen(be.X).(*ast.CallExpr)
+		if !ok || !c.isBuiltin(call, "len") || len(call.Args) != 1 || stripConv(call.Args[0]) != base {
+			continue
+		}
+		rv, ok := c.Info.Types[be.Y]
+		if !ok || rv.Value == nil {
+			continue
+		}
+		m, isInt := constInt(rv.Value.String())
+		if !isInt {
+			continue
+		}
+		// lower bound on len implied by the literal (with its polarity); -1: none
+		lb := -1
+		op := be.Op
+		if cl.neg {
+			switch op {
+			case token.LSS:
+				op = token.GEQ
+			case token.LEQ:
+				op = token.GTR
+			case token.NEQ:
+				op = token.EQL
+			case token.EQL:
+				op = token.NEQ
+			default:
+				continue
+			}
+		}
+		switch op {
+		case token.GTR:
+			lb = m + 1
+		case token.GEQ, token.EQL:
+			lb = m
+		case token.NEQ:
+			if m == 0 {
+				lb = 1
+			}
+		}
+		if lb > best {
+			best = lb
+		}
+	}
+	return best
+}
+
 func constInt(s string) (int, bool) {
 	n := 0
 	if s == "" {
@@ -942,6 +1021,12 @@ func (c *Ctx) loopBounded(fd *ast.FuncDecl, ix *ast.IndexExpr) bool {
 		}
 		if call, ok := unparen(be.Y).(*ast.CallExpr); ok && c.isBuiltin(call, "len") && exprString(call.Args[0]) == base {
 			bounded = true
+		}
+		// a constant bound not above what the conditions in force say about the length: len(x) == 3 ... i < 3
+		if tv, isConst := c.Info.Types[be.Y]; isConst && tv.Value != nil {
+			if n, isInt := constInt(tv.Value.String()); isInt && n <= c.lenLowerBound(fd, ix, ix.X) {
+				bounded = true
+			}
 		}
 		return true
 	})
@@ -983,6 +1068,87 @@ func (c *Ctx) loopBounded(fd *ast.FuncDecl, ix *ast.IndexExpr) bool {
 	}
 	// the key of a range over P, used to index a local slice made with make(T, len(P) ...) that is afterwards only
 	// appended to (it never gets shorter)
+	// ... the same for a field of a local (raw.Security = make(T, len(P)); for i := range P { raw.Security[i] = .. })
+	if xse, isSel := unparen(ix.X).(*ast.SelectorExpr); isSel && !bounded {
+		if xp, okp := c.apath(xse); okp {
+			if _, isParam := xp.Root.(*types.Var); isParam && c.paramIndex(fd, xp.Root) < 0 && xp.Root != c.recvObj(fd) {
+				xtxt := exprString(xse)
+				madeFor, okDefs, ndefs := "", true, 0
+				ast.Inspect(fd.Body, func(n ast.Node) bool {
+					as, isAs := n.(*ast.AssignStmt)
+					if !isAs || len(as.Lhs) != len(as.Rhs) {
+						return true
+					}
+					for li, l := range as.Lhs {
+						if exprString(unparen(l)) != xtxt {
+							continue
+						}
+						ndefs++
+						call, isCall := unparen(as.Rhs[li]).(*ast.CallExpr)
+						switch {
+						case isCall && c.isBuiltin(call, "make") && len(call.Args) >= 2:
+							if lc, isLen := unparen(call.Args[1]).(*ast.CallExpr); isLen && c.isBuiltin(lc, "len") && len(lc.Args) == 1 && madeFor == "" {
+								madeFor = exprString(lc.Args[0])
+							} else {
+								okDefs = false
+							}
+						case isCall && c.isBuiltin(call, "append") && len(call.Args) >= 1 && exprString(unparen(call.Args[0])) == xtxt:
+						default:
+							okDefs = false
+						}
+					}
+					return true
+				})
+				// the holder itself must not be re-assigned as a whole or have its address taken
+				ast.Inspect(fd.Body, func(n ast.Node) bool {
+					switch y := n.(type) {
+					case *ast.AssignStmt:
+						for _, l := range y.Lhs {
+							if id, isId := unparen(l).(*ast.Ident); isId && c.objOf(id) == xp.Root && y.Tok != token.DEFINE {
+								okDefs = false
+							}
+						}
+					}
+					return true
+				})
+				if okDefs && ndefs > 0 && madeFor != "" {
+					ast.Inspect(fd.Body, func(n ast.Node) bool {
+						rs, ok := n.(*ast.RangeStmt)
+						if !ok || rs.Key == nil || ix.Pos() < rs.Body.Pos() || ix.End() > rs.Body.End() {
+							return true
+						}
+						k, ok := rs.Key.(*ast.Ident)
+						if !ok || c.objOf(k) != o || exprString(rs.X) != madeFor {
+							return true
+						}
+						written := false
+						ast.Inspect(rs.Body, func(m ast.Node) bool {
+							switch x := m.(type) {
+							case *ast.AssignStmt:
+								for _, l := range x.Lhs {
+									if lid, ok := l.(*ast.Ident); ok && c.objOf(lid) == o {
+										written = true
+									}
+									if exprString(unparen(l)) == xtxt {
+										written = true
+									}
+								}
+							case *ast.IncDecStmt:
+								if lid, ok := x.X.(*ast.Ident); ok && c.objOf(lid) == o {
+									written = true
+								}
+							}
+							return true
+						})
+						if _, isMap := c.typeOf(rs.X).Underlying().(*types.Map); !written && !isMap {
+							bounded = true
+						}
+						return true
+					})
+				}
+			}
+		}
+	}
 	if xid, isId := unparen(ix.X).(*ast.Ident); isId && !bounded {
 		madeFor := ""
 		okDefs := true
@@ -1910,4 +2076,37 @@ func (c *Ctx) allCallersNilTest(f *types.Func) bool {
 		})
 	}
 	return good && sites > 0
+}
+
+// bothKnownPointers: at the comparison, both operands are known to hold pointers: for each of them a condition in
+// force says reflect.ValueOf(<operand>).Kind() == reflect.Ptr.
+func (c *Ctx) bothKnownPointers(fd *ast.FuncDecl, be *ast.BinaryExpr) bool {
+	known := func(op ast.Expr) bool {
+		want := exprString(unparen(op))
+		for _, cl := range c.literalsAt(fd, be) {
+			cmp, ok := unparen(cl.e).(*ast.BinaryExpr)
+			if !ok || !(cmp.Op == token.NEQ && cl.neg || cmp.Op == token.EQL && !cl.neg) {
+				continue
+			}
+			for _, pr := range [][2]ast.Expr{{cmp.X, cmp.Y}, {cmp.Y, cmp.X}} {
+				kc, isCall := unparen(pr[0]).(*ast.CallExpr)
+				if !isCall || len(kc.Args) != 0 {
+					continue
+				}
+				kse, isSel := unparen(kc.Fun).(*ast.SelectorExpr)
+				if !isSel || kse.Sel.Name != "Kind" {
+					continue
+				}
+				vc, isV := unparen(kse.X).(*ast.CallExpr)
+				if !isV || !c.isPkgFunc(vc, "reflect", "ValueOf") || len(vc.Args) != 1 || exprString(unparen(vc.Args[0])) != want {
+					continue
+				}
+				if id, isId := unparen(pr[1]).(*ast.SelectorExpr); isId && (id.Sel.Name == "Ptr" || id.Sel.Name == "Pointer") {
+					return true
+				}
+			}
+		}
+		return false
+	}
+	return known(be.X) && known(be.Y)
 }
